@@ -30,6 +30,8 @@ pub struct Config {
     pub skew_before_ms: i64,
     pub skew_after_ms: i64,
     pub skew_jump_at_ms: i64,
+    /// extra milliseconds the client clock gains on every read (clock moving between reads)
+    pub clock_tick_ms: i64,
     pub script: ConsumerScript,
     pub chunks_until_end: Option<u64>,
     pub gap_style: u64,
@@ -95,7 +97,11 @@ pub fn draw_config(tape: &mut Tape, flavor: Flavor, max_deliveries: usize) -> Co
     let mut skew_before_ms = 0;
     let mut skew_after_ms = 0;
     let mut skew_jump_at_ms = i64::MAX;
+    let mut clock_tick_ms = 0;
     if with_faults {
+        if tape.draw(3) == 2 {
+            clock_tick_ms = 1 + tape.draw(25) as i64;
+        }
         let rate = |tape: &mut Tape| -> u64 {
             if tape.draw(3) == 0 {
                 0
@@ -180,6 +186,7 @@ pub fn draw_config(tape: &mut Tape, flavor: Flavor, max_deliveries: usize) -> Co
         skew_before_ms,
         skew_after_ms,
         skew_jump_at_ms,
+        clock_tick_ms,
         script,
         chunks_until_end,
         gap_style,
@@ -192,6 +199,10 @@ pub fn make_world(core: &mut Core, cfg: &Config, seed: u64) -> RtWorld {
     core.skew_before_ms = cfg.skew_before_ms;
     core.skew_after_ms = cfg.skew_after_ms;
     core.skew_jump_at_ms = cfg.skew_jump_at_ms;
+    core.tick_ms = cfg.clock_tick_ms;
+    if cfg.clock_tick_ms > 0 {
+        core.ctx.count("fault.clock_moves_between_reads");
+    }
     let mut w = RtWorld {
         site: cfg.site.clone(),
         seed,
@@ -479,6 +490,7 @@ pub fn judge(ctx: &mut Ctx, w: &mut RtWorld, cfg: &Config, outcome: &Outcome, re
     // ---- clause 5: bounded liveness in virtual time
     if !matches!(outcome, Outcome::Cancelled | Outcome::Timeout) {
         let quiet_since = w.last_event_ms - s3sim::EPOCH_MS;
+        // the ticking clock drifts ahead by tick x reads; a clock that is ahead never lengthens a sleep
         let skew = cfg.skew_before_ms.abs().max(cfg.skew_after_ms.abs());
         let bound = skew + w.longest_gap_ms + 600_000 + cfg.faults.latency_max_ms as i64 * 40;
         if returned_at_ms - quiet_since > bound {
@@ -597,7 +609,7 @@ pub fn run_session(tape: &mut Tape, ctx: &mut Ctx, cfg: &Config, seed: u64, judg
                     ctx_local.sample = Some(json!({
                         "site": cfg.site, "uploader": format!("{:?}", cfg.mode), "start_directory": cfg.v0, "chunks_present_at_start": cfg.k0, "older_volumes": cfg.older,
                         "consumer": format!("{:?}", cfg.script), "history_ends_after_chunks": cfg.chunks_until_end,
-                        "fault_rates": format!("{:?}", cfg.faults), "clock_skew_ms": [cfg.skew_before_ms, cfg.skew_after_ms],
+                        "fault_rates": format!("{:?}", cfg.faults), "clock_skew_ms": [cfg.skew_before_ms, cfg.skew_after_ms], "clock_tick_ms_per_read": cfg.clock_tick_ms,
                         "deliveries": w.backend.deliveries.iter().take(8).map(|d| format!("{}/{}", d.volume, d.name)).collect::<Vec<_>>(),
                         "delivery_count": n, "requests": w.core.log.len(), "virtual_ms": returned_at,
                         "outcome": match &outcome { Outcome::Ok => "Ok".to_string(), Outcome::Err(k, _) => format!("Err({})", k), Outcome::Timeout => "timeout".into(), Outcome::Cancelled => "cancelled".into() },
@@ -660,7 +672,7 @@ impl Check for C18 {
     }
     fn required_probes(&self, tier: Tier) -> Vec<&'static str> {
         // only probes that do not depend on a free choice of the code under test
-        let mut v = vec!["volume_boundary_crossed", "wrap_999_to_1_delivered", "stop_sent", "chunk_receiver_dropped", "stats_receiver_dropped", "error_consumer_gone", "error_chunk_never_appeared", "visibility_delay_attempts", "fault.transient_404", "fault.status_5xx", "fault.send_error", "fault.body_cut", "fault.list_5xx", "fault.list_404", "fault.latency", "returned_ok"];
+        let mut v = vec!["volume_boundary_crossed", "wrap_999_to_1_delivered", "stop_sent", "chunk_receiver_dropped", "stats_receiver_dropped", "error_consumer_gone", "error_chunk_never_appeared", "visibility_delay_attempts", "fault.transient_404", "fault.status_5xx", "fault.send_error", "fault.body_cut", "fault.list_5xx", "fault.list_404", "fault.latency", "fault.clock_moves_between_reads", "returned_ok"];
         if tier == Tier::Thorough {
             v.push("full_rotation_completed");
         }
